@@ -37,11 +37,28 @@ def blocks(text):
 
 
 def expand_sums(s):
-    # \sum_{i=0}^3(BODY)  ->  (BODY[i:=0] + ... )
+    # \sum_{i=0}^3(BODY)  ->  (BODY[i:=0] + ... ) ; a sum without parentheses extends to the next top-level + / - or the end
     while True:
         m = re.search(r"\\sum_\{([a-z])=(\d+)\}\^\{?(\d+)\}?\s*\(", s)
         if not m:
-            return s
+            m2 = re.search(r"\\sum_\{([a-z])=(\d+)\}\^\{?(\d+)\}?\s*", s)
+            if not m2:
+                return s
+            j = m2.end()
+            depth = 0
+            while j < len(s):
+                ch = s[j]
+                if ch in "({":
+                    depth += 1
+                elif ch in ")}":
+                    if depth == 0:
+                        break
+                    depth -= 1
+                elif ch in "+-" and depth == 0 and s[:j].rstrip()[-1:] not in ("_", "^", "{"):
+                    break
+                j += 1
+            s = s[:m2.end()] + "(" + s[m2.end():j].strip() + ")" + s[j:]
+            continue
         v, lo, hi = m.group(1), int(m.group(2)), int(m.group(3))
         j = m.end()
         depth = 1
